@@ -5,6 +5,7 @@ errors + the Schema, built-ins included); (2) `Schema::parse_and_validate(..).is
 verdict of the executable specification Schema/Valid.v (no build errors && sv_schema_valid) on that dump.
 On disagreement the replay names the specification rules that fail and the crate's diagnostic kinds."""
 import json
+import re
 from collections import Counter
 from common import *
 from props import c14_gen as G
@@ -86,8 +87,16 @@ def verdict(obs):
 
 def failed_rules(model_obs):
     if model_obs.startswith("invalid rules="):
-        return model_obs[len("invalid rules="):].split(",")
+        return model_obs.split(" ")[1][len("rules="):].split(",")
     return []
+
+
+def classify(case, impl_obs, model_obs):
+    """known-finding classes are decided by the model (Valid.v, sv_known_*): the class is part of its line"""
+    m = re.search(r" class=(\S+)", model_obs)
+    if m and verdict(impl_obs) == "valid":
+        return m.group(1)
+    return None
 
 
 def describe(case):
@@ -111,7 +120,7 @@ def run(ctx):
         return verdict(i) == verdict(m) and verdict(i) in ("valid", "invalid")
 
     rows = ctx.correspond(impl, model, "c14_validate", lines, compare=compare, describe=describe,
-                          nontrivial=lambda c, o: True)
+                          classify=classify, nontrivial=lambda c, o: True)
     # ---- evidence
     fam = ctx.cov["families"]["c14_validate"]
     fam["accepted"] = sum(1 for _, i, _ in rows if verdict(i) == "valid")
